@@ -1029,10 +1029,26 @@ std::string Generator::GeneratorImpl::generateOperatorCode(const std::string &op
             }
         }
 
+        // Note: a logarithm with a base other than 10 is generated as a
+        //       division (i.e. log(x)/log(base)).
+
+        auto isLogarithmWithBase = [&](const AnalyserEquationAstPtr &logAst) {
+            if ((logAst->type() != AnalyserEquationAst::Type::LOG)
+                || (logAst->rightChild() == nullptr)) {
+                return false;
+            }
+
+            double doubleValue;
+
+            return !(convertToDouble(generateCode(logAst->leftChild()), doubleValue)
+                     && areEqual(doubleValue, 10.0));
+        };
+
         if (isRelationalOperator(astRightChild)
             || isLogicalOperator(astRightChild)
             || isTimesOperator(astRightChild)
             || isDivideOperator(astRightChild)
+            || isLogarithmWithBase(astRightChild)
             || isPiecewiseStatement(astRightChild)) {
             astRightChildCode = "(" + astRightChildCode + ")";
         } else if (isPlusOperator(astRightChild)
